@@ -110,13 +110,13 @@ pub fn plans(ctx: &WorkerCtx) -> Vec<Plan> {
     let base = Opts { n32: 2, n64: 2, ..Default::default() };
     let mut v = vec![];
     let af = || -> Box<dyn Fn(&Cfg) -> Alphabet + Sync> { Box::new(|c: &Cfg| alphabet(c.machines.len())) };
-    v.push(Plan { name: "one padder x framework fraction".into(), cfgs: fam::singles(&pads, &fw), alpha_for: af(), opts: Opts { depth: if q { 6 } else { 9 }, ..base.clone() } });
+    v.push(Plan { name: "one padder x framework fraction".into(), cfgs: fam::singles(&pads, &fw), alpha_for: af(), opts: Opts { depth: if q { 6 } else { 9 }, ..base.clone() }, walk: None });
     // padder next to a machine that only *reports* padding (moves the global fraction)
     let reporter = vec![("noop".to_string(), fam::noop())];
     let mut two = fam::all_pairs(&pads, &reporter, &fw);
     let sub: Vec<_> = pads.iter().filter(|(n, _)| q && !n.contains("frac0.25") || !q).cloned().collect();
     two.extend(fam::all_pairs(&sub, &sub, if q { &fw[2..3] } else { &fw }));
-    v.push(Plan { name: "padder + reporter, all padder pairs".into(), cfgs: two, alpha_for: af(), opts: Opts { depth: if q { 5 } else { 7 }, ..base.clone() } });
+    v.push(Plan { name: "padder + reporter, all padder pairs".into(), cfgs: two, alpha_for: af(), opts: Opts { depth: if q { 5 } else { 7 }, ..base.clone() }, walk: None });
     let k0: Vec<_> = pads.iter().filter(|(n, _)| n.contains("k0") && !n.contains("frac0.25")).cloned().collect();
     let mut three = vec![];
     for (i, (na, a)) in k0.iter().enumerate() {
@@ -127,10 +127,10 @@ pub fn plans(ctx: &WorkerCtx) -> Vec<Plan> {
             }
         }
     }
-    v.push(Plan { name: "three padders".into(), cfgs: three, alpha_for: af(), opts: Opts { depth: if q { 4 } else { 6 }, ..base.clone() } });
+    v.push(Plan { name: "three padders".into(), cfgs: three, alpha_for: af(), opts: Opts { depth: if q { 4 } else { 6 }, ..base.clone() }, walk: None });
     // general machines (G2 with padding actions) under framework fractions
     let g2: Vec<_> = fam::g2(if q { 1999 } else { 199 }, 5).into_iter().filter(|(_, m)| format!("{:?}", m).contains("SendPadding")).collect();
-    v.push(Plan { name: "G2 machines with padding actions, pairs".into(), cfgs: fam::pairs_strided(&g2, 31, 7, &[(0.5, 0.0), (0.25, 0.0), (1.0, 0.0)]), alpha_for: Box::new(|c: &Cfg| Alphabet { batches: all_single_events(c.machines.len(), false).into_iter().map(|e| vec![e]).collect(), deltas: vec![0] }), opts: Opts { depth: if q { 3 } else { 4 }, ..base.clone() } });
+    v.push(Plan { name: "G2 machines with padding actions, pairs".into(), cfgs: fam::pairs_strided(&g2, 31, 7, &[(0.5, 0.0), (0.25, 0.0), (1.0, 0.0)]), alpha_for: Box::new(|c: &Cfg| Alphabet { batches: all_single_events(c.machines.len(), false).into_iter().map(|e| vec![e]).collect(), deltas: vec![0] }), opts: Opts { depth: if q { 3 } else { 4 }, ..base.clone() }, walk: None });
     v
 }
 
